@@ -157,6 +157,10 @@ class FunctionVC(Executor):
         for cn, file in self.model.class_prefix(cls, name):
             key = f"{file}:{cn}.{name}"
             if key in self.project.contracts:
+                if self.project.contracts[key].get("call_site") == "opaque" and self.model.method_decl(cls, name) is not None:
+                    # verified on its own under stated preconditions; callers keep the object model's declaration
+                    self.assumptions.add(f"call-site preconditions of {key} assumed (contract not applied at call sites)")
+                    break
                 yield from self.call_repo_function(key, None, recv, args, kwargs, s)
                 return
         decl = self.model.method_decl(cls, name)
